@@ -23,6 +23,12 @@ legs: MC   TLC runs the statement machine of Statements.tla (rewrite into the te
            text and the compiler: PRINT is evaluated on its own clauses on every route (a stored BALANCES / JOURNAL
            without CLOSE may be closed at the date of its query directive: the statement is silent about that shell
            feature, both admitted).  A shell that applies the default closing date to PRINT too must be rejected.
+           has_account(p) is about EVERY account a directive names (a pad names two: the filters select an account that
+           only a pad names, as the account the amount is taken from); a mechanism that looks at one account attribute
+           of a directive that is not a transaction must be rejected.  A FROM clause with several of OPEN / CLOSE / CLEAR
+           means their application one after the other (Statements!ClauseChain; the version of StatementsSession is
+           the ledger plus the chain of single clauses); a prepare() that computes OPEN ON d CLOSE ON e by a routine of
+           its own must be rejected.
       S2C  TLC prints, per statement shape, the SHORT statement and the EXPANDED SELECT as token sequences and, per
            (ledger, shape), the rows the specification requires.  The driver builds the ledger, executes both texts
            through Connection.execute, requires identical rows and descriptions and equality with the spec's rows.
@@ -33,7 +39,8 @@ legs: MC   TLC runs the statement machine of Statements.tla (rewrite into the te
            what the same statement returns on a connection that executed nothing else.  Every step is emitted typed
            AND stored: a stored statement lives in a ledger FILE the shell loads itself, is submitted as `.run <name>`
            and must write what one of the statement texts the spec admits writes when typed at the prompt of a shell
-           that loaded the same file and executed nothing else.
+           that loaded the same file and executed nothing else.  A statement with several clauses must also return what
+           the statement with the LAST of them returns on the ledger the clauses before it give (chain / last from TLC).
       C2S  the Beancount example ledger and random ledgers: every shape of the big table (filters x OPEN / CLOSE / CLEAR
            subsets x summary functions x account patterns) is run short vs expanded (rows + description equal) and the
            observed rows are logged next to the summarised posting / directive table (both read off the directives
@@ -42,7 +49,11 @@ legs: MC   TLC runs the statement machine of Statements.tla (rewrite into the te
            every line with the operators of the specification.  All statements of a ledger run on ONE shell /
            connection (groups in seeded random order, then a stratified random session with repeated statements);
            every summarised table the lines are judged against is obtained on a connection of its own that executes
-           nothing else, so a result that depends on the history of the connection is rejected by TLC.  On some
+           nothing else, so a result that depends on the history of the connection is rejected by TLC.  The table of a
+           clause COMBINATION is composed: one clause at a time (the chain TLC prints with the shape), each on a connection
+           of its own attached to what the clauses before it gave -- what the code makes of OPEN + CLOSE + CLEAR met in one
+           FROM clause is judged against the composition of the single clauses.  Random ledgers hold pad (two accounts),
+           balance, event and close directives next to transactions, notes, documents and prices.  On some
            ledgers a further session runs on a shell that loads the ledger from a file in which every PRINT statement
            is stored by a query directive: each is submitted as `.run <name>` and judged by TLC like a typed one.
 """
@@ -473,7 +484,9 @@ def proj_entry(e):
     if isinstance(e, data.Transaction):
         return [name, ymd(e.date), e.flag, e.payee, e.narration, pval(e.tags), pval(e.links), pmeta(e.meta),
                 [[p.account, pval(p.units), pcost(p.cost), pval(p.price), p.flag, pmeta(p.meta)] for p in e.postings]]
-    fields = [f for f in e._fields if f not in ('meta', 'date')]
+    # diff_amount of a balance assertion is not part of the directive as written: the loader's balance check fills it
+    # in when the assertion fails (printed as a comment), the syntax cannot carry it
+    fields = [f for f in e._fields if f not in ('meta', 'date') and not (name == 'Balance' and f == 'diff_amount')]
     vals = []
     for f in fields:
         v = getattr(e, f)
@@ -630,6 +643,7 @@ NARRS = ['Eating out with Joe', 'Eating out alone', 'Payroll', '', 'Buying groce
 # tags and links: transactions have them -- and so do notes and documents
 TAGS = [frozenset(), frozenset(), frozenset(), frozenset({'trip'}), frozenset({'trip', 'food'}), frozenset({'food'})]
 LINKS = [frozenset(), frozenset(), frozenset({'inv-1'}), frozenset({'inv-1', 'inv-2'})]
+PAD_SOURCES = ['Equity:Opening-Balances', 'Equity:Opening-Balances', 'Equity:Assets', 'Liabilities:US:Chase:Slate']
 
 
 def random_ledger(rng, ntxn):
@@ -677,6 +691,20 @@ def random_ledger(rng, ntxn):
         if rng.random() < 0.1:
             n += 1
             entries.append(data.Price({'filename': '<r>', 'lineno': n}, day, 'VBMPX', amount.Amount(D('11.5'), 'USD')))
+        # the other directives that name accounts: a pad names TWO (the account it pads and the one the amount is
+        # taken from -- often an account no transaction of the ledger touches), a balance assertion one; an event none
+        if rng.random() < 0.15:
+            n += 1
+            entries.append(data.Pad({'filename': '<r>', 'lineno': n}, day, rng.choice(ACCOUNTS[:7]), rng.choice(PAD_SOURCES)))
+        if rng.random() < 0.1:
+            n += 1
+            entries.append(data.Balance({'filename': '<r>', 'lineno': n}, day, rng.choice(ACCOUNTS),
+                                        amount.Amount(D(rng.randint(-5000, 5000)) / 100, 'USD'), None, None))
+        if rng.random() < 0.05:
+            n += 1
+            entries.append(data.Event({'filename': '<r>', 'lineno': n}, day, 'location', rng.choice(['Paris', 'New York'])))
+    n += 1
+    entries.append(data.Close({'filename': '<r>', 'lineno': n}, day, 'Income:Food'))
     return entries
 
 
@@ -752,10 +780,22 @@ class Recorder:
 SUMMARY = {'none': lambda pos: pos}
 
 
-def posting_table(conn, f, fc):
+def summarised(entries, options, table, chain):
+    """the entry list after the clauses of a FROM clause, by the specification's reading of a clause COMBINATION
+    (Statements!ClauseChain, printed by TLC with every statement shape): the single clauses one after the other, OPEN
+    then CLOSE then CLEAR, each applied (BeanTable.prepare with that one clause -- taken as given, C13 judges it) on a
+    connection of its own attached to the entry list the clauses before it gave.  What the code makes of the
+    combination when it meets all the clauses in one FROM clause is what the statements under observation show."""
+    cur = entries
+    for step in chain:
+        cur = list(connect(cur, options).tables[table].update(**clause_kwargs(step)).prepare())
+    return list(cur)
+
+
+def posting_table(summarised_entries, f):
     """the summarised posting table with the summary function applied, read off the DIRECTIVES: the transactions of the
-    entry list after OPEN / CLOSE / CLEAR (BeanTable.prepare, taken as given) and their postings, attribute by
-    attribute.  No column of the postings table is involved -- the columns are what BALANCES / JOURNAL and their
+    entry list after OPEN / CLOSE / CLEAR (summarised(): single clauses taken as given, combinations composed) and their
+    postings, attribute by attribute.  No column of the postings table is involved -- the columns are what BALANCES / JOURNAL and their
     expansions go through, so a table obtained through them cannot tell what a column should have returned.
     rows: (date, flag, payee, narration of the transaction; account, [f of] position, accounts of the transaction,
     currency, flag of the posting)"""
@@ -764,7 +804,7 @@ def posting_table(conn, f, fc):
         SUMMARY.update(units=convert.get_units, cost=convert.get_cost)
     fn = SUMMARY[f]
     rows = []
-    for e in conn.tables['postings'].update(**clause_kwargs(fc)).prepare():
+    for e in summarised_entries:
         if not isinstance(e, data.Transaction):
             continue
         accounts = {p.account for p in e.postings}
@@ -861,11 +901,10 @@ class Oracle:
         return o
 
     def directives(self, s):
-        table = connect(self.entries, self.options).tables['entries'].update(**clause_kwargs(s['from']))
-        summarised = list(table.prepare())
-        o = {'summarised': summarised, 'projs': [proj_entry(e) for e in summarised], 'in_domain': True}
+        summ = summarised(self.entries, self.options, 'entries', s['chain'])
+        o = {'summarised': summ, 'projs': [proj_entry(e) for e in summ], 'in_domain': True}
         try:
-            o['dirs'] = dirs = [abstract_dir(e) for e in summarised]
+            o['dirs'] = dirs = [abstract_dir(e) for e in summ]
             for d in dirs:
                 if not all(plain_ascii(x) for x in d[3] + d[4]):
                     raise OutOfDomain('non-ASCII')
@@ -879,7 +918,7 @@ class Oracle:
         return o
 
     def postings(self, s):
-        rows = posting_table(connect(self.entries, self.options), s['f'], s['from'])
+        rows = posting_table(summarised(self.entries, self.options, 'postings', s['chain']), s['f'])
         o = {'in_domain': True}
         try:
             table_in_domain(rows)
@@ -1166,6 +1205,28 @@ def _replay_sessions(ctx, tables, sshapes, sessions, what, leg):
         if (c, text) not in fresh:
             fresh[c, text] = run_result(Session(*ledger(c, True)), text)
         return fresh[c, text]
+    composed = {}
+
+    def composition(c, n, stored, want):
+        """a statement with several clauses (shape['chain'], from the specification) against the statement with the LAST
+        of them only (shape['last']) on a connection attached to the entry list the clauses before it give -- once per
+        (ledger, statement)"""
+        shape = sshapes[n - 1]
+        chain = shape.get('chain') or []
+        if len(chain) < 2 or (c, n, stored) in composed:
+            return
+        composed[c, n, stored] = True
+        entries, options = ledger(c, stored)[:2]
+        before = summarised(entries, options, 'entries' if shape['kind'] == 'print' else 'postings', chain[:-1])
+        got = session_result(Session(before, options), dict(shape, short=shape['last']))
+        ctx.case(['session-composition', c, n, stored], True)
+        ctx.traces += 1
+        if got != want:
+            ctx.violation('session:%s:clauses:composition' % shape['kind'],
+                          'a statement with several of OPEN / CLOSE / CLEAR returns something else than the statement with '
+                          'the last of them on the ledger the clauses before it give',
+                          {'ledger': SESSION_LEDGERS[c], 'statement': text_of(shape['short']), 'chain': chain,
+                           'last': text_of(shape['last']), 'stored_ledger': stored}, leg, show_result(got), show_result(want))
     nsess = nstmt = nrun = 0
     t0 = time.time()
     for se in sessions:
@@ -1207,6 +1268,7 @@ def _replay_sessions(ctx, tables, sshapes, sessions, what, leg):
             if isinstance(want[0], str) and want[0].startswith('EXC'):
                 ctx.skipped += 1
                 continue
+            composition(c, n, stored, want)
             if got != want:
                 ctx.violation('session:%s%s:history' % (shape['kind'], ':clauses' if shape['clauses'] else ''),
                               'a statement returns something else after other statements on its connection than on a '
@@ -1218,7 +1280,8 @@ def _replay_sessions(ctx, tables, sshapes, sessions, what, leg):
         nsess += 1
         if nsess in (200, 1000):
             ctx.sample({'leg': leg, 'session': texts, 'connections': [st['c'] for st in se['steps']]})
-    ctx.leg(leg, **{what: nsess, what + '_statements': nstmt, what + '_statements_submitted_with_run': nrun})
+    ctx.leg(leg, **{what: nsess, what + '_statements': nstmt, what + '_statements_submitted_with_run': nrun,
+               what + '_clause_compositions': len(composed)})
     if hasattr(ctx, 'log'):
         ctx.log('%s: %d sessions (%d statements, %d of them stored and submitted with .run) replayed in %.1fs'
                 % (leg, nsess, nstmt, nrun, time.time() - t0))
@@ -1272,8 +1335,10 @@ def run(ctx):
         'account patterns are literal or ^prefix patterns over [-0-9:A-Za-z_]; the case-insensitive search of the code is modelled',
         'numbers are integers in minor units (< 2^31) per currency; other cases are skipped and counted',
         'column names are compared modulo blanks, case and doubled parentheses (they derive from the source text)',
-        'the entry list after OPEN / CLOSE / CLEAR is taken as given (BeanTable.prepare on a connection of its own that '
-        'executes nothing else): C13 judges it; the posting table TLC judges against is read off those directives '
+        'the entry list after ONE of OPEN / CLOSE / CLEAR is taken as given (BeanTable.prepare with that one clause, on a '
+        'connection of its own that executes nothing else): C13 judges it; "after OPEN/CLOSE/CLEAR" with several clauses is '
+        'read as their application one after the other in that order (Statements!ClauseChain; C13 states the order, the C14 '
+        'statement does not spell it out), so the table of a combination is composed from single-clause steps; the posting table TLC judges against is read off those directives '
         '(transaction: date, flag, payee, narration; posting: account, units, cost, own flag), the summary function '
         'applied with beancount.core.convert.get_units / get_cost',
         'the flag of the register (and the column flag in FROM / WHERE) is the flag of the transaction, as the column '
@@ -1281,6 +1346,10 @@ def run(ctx):
         'the columns tags / links of the entries table are the set of tags / links of the transaction, as the columns '
         'document: NULL for every other directive, also for notes and documents (which have tags and links of their own); '
         'the trace records what each directive carries, the specification (DirRow) says what the columns show',
+        'has_account(p) is TRUE when any account the directive names matches (beancount.core.getters.get_entry_accounts: '
+        'postings of a transaction, account of open/close/balance/note/document, account AND source_account of a pad)',
+        'diff_amount of a balance directive (filled in by the loader when the assertion fails) is not part of the directive '
+        'as written and is not compared in the PRINT round trip',
         'NOT NULL is TRUE (BQL\'s NULL-aware NOT, as property C01 states it)',
         'a result is a function of (ledger, statement): the statements of a ledger share one shell / connection and what '
         'ran before must not matter (StatementsSession.tla); S2C sessions compare with a connection that executed nothing else',
@@ -1301,18 +1370,19 @@ def run(ctx):
     # ---- MC
     if want('MC'):
         import concurrent.futures as cf
-        # the six non-vacuity runs (small, they stop at the first counterexample) run next to the exhaustive one
+        # the seven non-vacuity runs (small, they stop at the first counterexample) run next to the exhaustive one
         with cf.ThreadPoolExecutor(12) as pool:
             futs = [pool.submit(ctx.tlc, 'MC_Statements', 'MC_Statements_%s.cfg' % v, leg='MC-nonvacuity',
                                 expect_violation='DenoteIsMeaning', workers=2, jvm=JVM)
                     for v in ('no_where', 'order_by_name', 'balance_raw', 'print_keeps_null', 'flag_of_posting',
-                              'attr_of_any_directive')]
+                              'attr_of_any_directive', 'single_account_attribute')]
             # sessions: results do not depend on what a connection (or another one) executed before; mechanisms that
             # keep state across statements on the table object / the registered object / the class are rejected, and so
-            # is a shell that applies the default closing date of `.run` to a stored PRINT
+            # is a shell that applies the default closing date of `.run` to a stored PRINT, and a prepare() that computes
+            # OPEN ON d CLOSE ON e by a routine of its own instead of OPEN, then CLOSE
             futs += [pool.submit(ctx.tlc, 'StatementsSession', 'MC_StatementsSession_%s.cfg' % v, leg='MC-nonvacuity',
                                  expect_violation='Independent', workers=2, jvm=JVM)
-                     for v in ('memo_on_object', 'update_in_place', 'memo_on_class', 'run_closes_any')]
+                     for v in ('memo_on_object', 'update_in_place', 'memo_on_class', 'run_closes_any', 'fused_period')]
             futs.append(pool.submit(run_session_mc, ctx))
             futs.append(pool.submit(run_session_mc, ctx, True))
             for cfg in ctx.pick(('MC_Statements.cfg',), ('MC_Statements4.cfg', 'MC_Statements4b.cfg')):
